@@ -47,8 +47,8 @@ VARIABLES L, d, zlen,   \* the file (fixed per behaviour)
 
 vars == <<L, d, zlen, off, pos, clen, bufBase, pc, found, outcome, runAt>>
 
-Min(a, b) == IF a < b THEN a ELSE b
-Max(a, b) == IF a > b THEN a ELSE b
+PMin(a, b) == IF a < b THEN a ELSE b
+PMax(a, b) == IF a > b THEN a ELSE b
 
 \* '#' bytes of the marker "\n####ECALSRC####\n": offsets 1..4 and MLen-5..MLen-2
 MarkerHash == (1..4) \cup ((MLen - 5)..(MLen - 2))
@@ -58,9 +58,9 @@ Size == L + MLen + zlen
 \* is there a '#' in the file within [lo, hi)?
 StrideHash(lo, hi) ==
   d.stride > 0 /\
-  LET a == Max(lo, d.from)
+  LET a == PMax(lo, d.from)
       first == ((a + d.stride - 1) \div d.stride) * d.stride
-  IN first < Min(hi, L)
+  IN first < PMin(hi, L)
 HashIn(lo, hi) ==
   \/ StrideHash(lo, hi)
   \/ \E q \in d.singles : lo <= q /\ q < hi /\ q < L
@@ -75,12 +75,12 @@ Init ==
 
 \* ---- the loop at the pinned commit ------------------------------------------------------------------
 FoundStep ==
-  LET i == Min(B1, Size - off) IN
+  LET i == PMin(B1, Size - off) IN
   IF i = 0 THEN pc' = "scanned" /\ UNCHANGED <<off, pos, clen, bufBase, found, outcome, runAt>>
   ELSE
     LET stale == i < B1 /\ bufBase >= 0 /\ HashIn(bufBase + i, bufBase + B1)
         hash  == HashIn(off, off + i) \/ stale
-        i2    == Min(B2, Size - off - i)
+        i2    == PMin(B2, Size - off - i)
         inWin == off <= L /\ L + MLen <= off + i + i2
         start == L - off + MLen
     IN IF hash /\ inWin
@@ -97,7 +97,7 @@ FoundStep ==
 
 \* ---- the repaired loop --------------------------------------------------------------------------------
 CodeStep ==
-  LET i == Min(B1, Size - off) IN
+  LET i == PMin(B1, Size - off) IN
   IF i = 0 THEN pc' = "scanned" /\ UNCHANGED <<off, pos, clen, bufBase, found, outcome, runAt>>
   ELSE
     LET lo == off - clen
@@ -106,17 +106,18 @@ CodeStep ==
        THEN /\ found' = TRUE /\ pos' = pos - clen + (L - lo) + MLen /\ pc' = "scanned"
             /\ UNCHANGED <<off, clen, bufBase, outcome, runAt>>
        ELSE /\ pos' = pos + i /\ off' = off + i
-            /\ clen' = Min(MLen - 1, clen + i)
+            /\ clen' = PMin(MLen - 1, clen + i)
             /\ UNCHANGED <<bufBase, pc, found, outcome, runAt>>
 
 Step == pc = "scan" /\ (IF Variant = "found" THEN FoundStep ELSE CodeStep) /\ UNCHANGED <<L, d, zlen>>
 
 \* after the loop: the archive is read from pos if the marker was found, otherwise the function returns and the
 \* ordinary command line is processed
-Finish ==
-  /\ pc = "scanned" /\ pc' = "done"
+FinishEffect ==
+  /\ pc' = "done"
   /\ IF found THEN outcome' = "run" /\ runAt' = pos ELSE outcome' = "miss" /\ runAt' = runAt
   /\ UNCHANGED <<L, d, zlen, off, pos, clen, bufBase, found>>
+Finish == pc = "scanned" /\ FinishEffect
 
 Next == Step \/ Finish
 Spec == Init /\ [][Next]_vars
